@@ -450,6 +450,14 @@ func runC11R3(c *Ctx) {
 		}
 		c.Check("C11-R3", "delegate:"+key, target.Pos(), okName && okRecv && okArgs,
 			fmt.Sprintf("adapter method %s calls bbolt %s (expected %s) on own receiver=%v with arguments passed through unchanged=%v", key, got, want, okRecv, okArgs))
+		// every return passes that one delegate call: no alternative path (a "fast path" answering from another bucket,
+		// a cached value) may produce the method's answer
+		{
+			q := &PathQuery{Fn: fn, Barrier: func(i ssa.Instruction) bool { return i == ssa.Instruction(target) },
+				Target: func(i ssa.Instruction, _ *ssa.BasicBlock) bool { _, ok := i.(*ssa.Return); return ok }}
+			c.Check("C11-R3", "delegate-on-every-path:"+key, target.Pos(), len(q.From(nil)) == 0,
+				"adapter method "+key+" can return without having called its bbolt counterpart (an alternative path produces the answer): what it returns is then not what bbolt holds for this bucket/cursor/transaction")
+		}
 		// byte-slice results (keys, values) are handed back exactly as bbolt returned them: in walletdb a nil value means
 		// "key absent" (Get) or "nested bucket" (cursors), and an empty non-nil one is a present, empty value; copying,
 		// re-slicing or appending loses that distinction
